@@ -93,8 +93,38 @@ func verifC17Run(msgs []string) (bool, string) {
 		sock.in <- inEnvelope{ID: id, Type: kind, Message: body}
 		time.Sleep(15 * time.Millisecond)
 	}
+	// (c) while the connection is open a subscription is closed only by its own unsubscribe (the resolver of this schema never
+	// fails): the number of Unsubscribe events per id so far is the number of explicit unsubscribes of a live subscription
+	live := map[string]bool{}
+	wantClosed := map[string]int{}
+	for _, m := range msgs {
+		var kind, id string
+		fmt.Sscanf(m, "%s %s", &kind, &id)
+		switch kind {
+		case "subscribe":
+			live[id] = true // a duplicate is rejected and leaves the live one alone
+		case "unsubscribe":
+			if live[id] {
+				wantClosed[id]++
+				delete(live, id)
+			}
+		}
+	}
+	logger.mu.Lock()
+	sock.mu.Lock()
+	midProblem := ""
+	for id := range logger.sub {
+		if got := logger.unsub[id] - sock.results[id]; got != wantClosed[id] {
+			midProblem = fmt.Sprintf("with the connection still open, subscription %s was closed %d time(s); it was unsubscribed %d time(s)", id, got, wantClosed[id])
+		}
+	}
+	sock.mu.Unlock()
+	logger.mu.Unlock()
 	close(sock.in)
 	<-done
+	if midProblem != "" {
+		return true, midProblem
+	}
 	time.Sleep(30 * time.Millisecond)
 	before := atomic.LoadInt64(&runs)
 	res.Strobe()
